@@ -386,7 +386,12 @@ def gen_history(rng, maxlen):
                 derived.append(op["name"]); nder += 1
         else:
             c = rng.random()
-            if c < 0.45:
+            last = [o for o in h["ops"] if o["op"] == "set" and o["form"] in ("list", "array") and len(o["vals"]) == nparam]
+            if c < 0.12 and last:
+                # a small change (3e-6 relative) of every value: still a change
+                h["ops"].append(dict(op="set", form="list", vals=[v * (1.0 + 3e-6) for v in last[-1]["vals"]]))
+                nvalued = nparam
+            elif c < 0.45:
                 h["ops"].append(dict(op="set", form="list" if rng.random() < 0.7 else "array", vals=[gen_val(rng) for _ in range(nparam)]))
                 nvalued = nparam
             elif c < 0.9:
@@ -437,6 +442,15 @@ def targeted():
                     tr=[dict(tt="T", o="I", d="R", mag=1)]), dict(op="eval", e=e), dict(op="eval", e="ode"), dict(op="eval", e=e),
                     dict(op="set", form="dict", items=[[0, 1.0]]), dict(op="eval", e=e), dict(op="eval", e="ode")]
         out.append(h)
+    # parameter values changed by a few parts in a million, and parameters of magnitude 1e-9: a change is a change
+    base1 = [dict(op="mut", how="add_event_E", rate=dict(k="mass", p="p0", X="S", Y="I"), tr=[dict(tt="T", o="S", d="I", mag=1)]),
+             dict(op="mut", how="add_ode", o="R", rate=dict(k="lin", p="p1", X="I", Y="S"))]
+    for v0, v1 in (([0.5, 0.25], [0.5 * (1 + 4e-6), 0.25 * (1 - 4e-6)]), ([2e-9, 3e-9], [7e-9, 1e-9])):
+        out.append(dict(states=list(STATES), params=["p0", "p1"], x=[2.0e6, 1.5e6, 0.75e6] if v0[0] < 1e-6 else [2.0, 1.5, 0.75],
+                        base=json.loads(json.dumps(base1)),
+                        ops=[dict(op="set", form="list", vals=v0), dict(op="eval", e="ode"), dict(op="eval", e="jacobian"),
+                             dict(op="set", form="list", vals=v1), dict(op="eval", e="ode"), dict(op="eval", e="jacobian"),
+                             dict(op="set", form="dict", items=[[0, v0[0]]]), dict(op="eval", e="ode"), dict(op="eval", e="eventRateVector")]))
     # a derived parameter declared again under the same name: every evaluator that was compiled with the old definition
     for e in ("ode", "jacobian", "eventRateVector", "transitionMean", "grad"):
         out.append(dict(states=list(STATES), params=["p0", "p1"], x=[2.0, 1.5, 0.75],
